@@ -7,6 +7,7 @@ import (
 	"os"
 	"path/filepath"
 	"reflect"
+	"sort"
 	"strconv"
 	"strings"
 	"time"
@@ -387,6 +388,10 @@ func c12Run(c *Ctx) {
 	if m&4 != 0 {
 		wopts |= flags.IniIncludeComments
 	}
+	if c.K%23 == 11 {
+		c12Named(c, wopts)
+		return
+	}
 	d := GenDecl(c.Sub("d"), c12Cfg())
 	a := d.Build()
 	if a.Err != nil {
@@ -550,4 +555,151 @@ func commonPrefix(a, b string) int {
 		i++
 	}
 	return i
+}
+
+// ---- declarations made of NAMED struct types --------------------------------------------------------------
+// (reflect.StructOf can only make unnamed types; programs share one named options struct between several
+// groups and commands, which is what this stratum declares)
+
+type c12Conn struct {
+	Host  string            `long:"host" description:"host name"`
+	Port  int               `long:"port" default:"5432"`
+	Tags  []string          `long:"tag" ini-name:"tags"`
+	Attrs map[string]string `long:"attr"`
+	Quiet bool              `long:"quiet"`
+}
+
+type c12NamedRun struct {
+	Store c12Conn `group:"Store" namespace:"store"`
+	Cache c12Conn `group:"Cache" namespace:"cache"`
+}
+
+type c12NamedRoot struct {
+	Verbose bool        `short:"v" long:"verbose"`
+	Primary c12Conn     `group:"Primary" namespace:"primary"`
+	Replica c12Conn     `group:"Replica" namespace:"replica"`
+	Run     c12NamedRun `command:"run" subcommands-optional:"true"`
+}
+
+func (x *c12NamedRoot) conns() map[string]*c12Conn {
+	return map[string]*c12Conn{"Primary": &x.Primary, "Replica": &x.Replica, "run.Store": &x.Run.Store, "run.Cache": &x.Run.Cache}
+}
+
+// c12Named: a settings file written by hand (keys spelled by field name, namespaced long name, ini-name or short
+// name) is loaded, saved and loaded again into a fresh parser: every group gets its own values back.
+func c12Named(c *Ctx, wopts flags.IniOptions) {
+	r := c.R
+	secs := []string{"Primary", "Replica", "run.Store", "run.Cache"}
+	ns := map[string]string{"Primary": "primary", "Replica": "replica", "run.Store": "store", "run.Cache": "cache"}
+	var sb strings.Builder
+	want := map[string]string{}
+	for _, i := range r.Perm(len(secs)) {
+		sec := secs[i]
+		if r.Chance(1, 5) {
+			continue
+		}
+		sb.WriteString("[" + sec + "]\n")
+		pick := func(forms ...string) string { return forms[r.Intn(len(forms))] }
+		if r.Chance(4, 5) {
+			v := fmt.Sprintf("h%d.%s", r.Intn(1000), ns[sec])
+			sb.WriteString(pick("Host", ns[sec]+".host") + " = " + v + "\n")
+			want[sec+"/Host"] = v
+		}
+		if r.Chance(3, 5) {
+			v := 1000 + r.Intn(60000)
+			sb.WriteString(pick("Port", ns[sec]+".port") + " = " + fmt.Sprint(v) + "\n")
+			want[sec+"/Port"] = fmt.Sprint(v)
+		}
+		n := r.Intn(3)
+		var tags []string
+		for j := 0; j < n; j++ {
+			v := fmt.Sprintf("t%d-%s", r.Intn(100), ns[sec])
+			sb.WriteString(pick("Tags", "tags", "TAGS", ns[sec]+".tag") + " = " + v + "\n")
+			tags = append(tags, v)
+		}
+		if n > 0 {
+			want[sec+"/Tags"] = fmt.Sprintf("%q", tags)
+		}
+		if r.Chance(2, 5) {
+			v := fmt.Sprintf("k%d:v-%s", r.Intn(5), ns[sec])
+			sb.WriteString(pick("Attrs", ns[sec]+".attr") + " = " + v + "\n")
+			want[sec+"/Attrs"] = v
+		}
+		if r.Chance(1, 3) {
+			sb.WriteString(pick("Quiet", ns[sec]+".quiet") + " = true\n")
+			want[sec+"/Quiet"] = "true"
+		}
+	}
+	text := sb.String()
+	snap := func(x *c12NamedRoot) map[string]string {
+		m := map[string]string{}
+		for sec, cn := range x.conns() {
+			m[sec+"/Host"] = cn.Host
+			m[sec+"/Port"] = fmt.Sprint(cn.Port)
+			m[sec+"/Tags"] = fmt.Sprintf("%q", cn.Tags)
+			var kv []string
+			for k, v := range cn.Attrs {
+				kv = append(kv, k+":"+v)
+			}
+			sort.Strings(kv)
+			m[sec+"/Attrs"] = strings.Join(kv, ",")
+			m[sec+"/Quiet"] = fmt.Sprint(cn.Quiet)
+		}
+		return m
+	}
+	var a, b c12NamedRoot
+	var out bytes.Buffer
+	var err1, err2 error
+	c.Case(func() interface{} {
+		return map[string]interface{}{"declaration": "named struct types: c12Conn shared by the groups Primary/Replica (root) and Store/Cache (command run)", "hand_written_ini": text, "write_options": int(wopts)}
+	})
+	pi := safely(func() {
+		pa := flags.NewParser(&a, flags.None)
+		pa.ParseArgs(nil)
+		err1 = flags.NewIniParser(pa).Parse(strings.NewReader(text))
+		if err1 != nil {
+			return
+		}
+		flags.NewIniParser(pa).Write(&out, wopts)
+		pb := flags.NewParser(&b, flags.None)
+		pb.ParseArgs(nil)
+		err2 = flags.NewIniParser(pb).Parse(strings.NewReader(out.String()))
+	})
+	if pi != nil {
+		c.Violate("panic:named-types", "load / save / load panicked: %s", pi.Value)
+		return
+	}
+	if err1 != nil {
+		c.Violate("named-types:hand-written-file-rejected", "the hand-written file was rejected: %v", err1)
+		return
+	}
+	c.Note("written_ini", clip(out.String(), 3000))
+	if err2 != nil {
+		c.Violate("named-types:reread-error", "a fresh parser over the same declaration rejects the written file: %v", err2)
+		return
+	}
+	sa, sb2 := snap(&a), snap(&b)
+	for k, w := range want {
+		if k[len(k)-5:] == "Attrs" {
+			if sa[k] != w {
+				c.Violate("named-types:first-load", "%s: the file says %q, the field holds %q", k, w, sa[k])
+				return
+			}
+		} else if sa[k] != w {
+			c.Violate("named-types:first-load", "%s: the file says %s, the field holds %s", k, w, sa[k])
+			return
+		}
+	}
+	var ks []string
+	for k := range sa {
+		ks = append(ks, k)
+	}
+	sort.Strings(ks)
+	for _, k := range ks {
+		if sa[k] != sb2[k] {
+			c.Violate("named-types:roundtrip", "%s holds %s before the save and %s after the reload", k, sa[k], sb2[k])
+			return
+		}
+	}
+	c.Held("named-struct-types", fmt.Sprintf("entries=%d wopts=%d", len(want), int(wopts)))
 }
